@@ -41,6 +41,8 @@ type rcase struct {
 	// light: an expensive item (tens of thousands of elements decoded by reflection or rendered as text): fewer
 	// fragmentation plans and failure offsets are run on it
 	light bool
+	// note: something about the receiver or the item that the operation's name does not say (goes into the witness)
+	note string
 }
 
 var trailer = []byte{0x5a, 0x5a, 0x5a, 0x5a, 0x5a}
@@ -60,6 +62,9 @@ var errSentinel = errors.New("verif: injected read failure")
 
 func (rc *rcase) wit(extra map[string]any) any {
 	m := map[string]any{"operation": rc.op.name, "input_hex": vm.Hex(rc.input), "input_len": len(rc.input)}
+	if rc.note != "" {
+		m["note"] = rc.note
+	}
 	for k, v := range extra {
 		m[k] = v
 	}
@@ -189,6 +194,42 @@ func checkRead(c *vm.Ctx, r *vm.Rand, rc *rcase) {
 			return
 		}
 		c.Cover("frag.byte-reader-source")
+	}
+	// the item as the LAST thing in the stream, its final bytes handed out together with io.EOF (a Read may return n > 0
+	// and the end of the stream at once: a socket whose peer has closed, a cipher or zlib reader at its end). Everything
+	// the item needs has arrived, so the result is the one of the contiguous run; taking the EOF for a failure would lose
+	// the last packet of every connection
+	if !rc.op.toEOF && bConsumed == len(rc.input) && len(rc.input) > 0 {
+		small := []int{1}
+		if len(rc.input) > 20000 {
+			small = []int{4096}
+		}
+		for _, plan := range [][]int{{1 << 30}, small, plans[len(plans)-1]} {
+			src := &tailErrReader{B: rc.input, Plan: plan, Err: io.EOF}
+			var repr string
+			var n int64
+			var err error
+			ex := map[string]any{"read_plan": plan, "source": "no trailer; the Read that hands out the item's last byte returns io.EOF with it"}
+			if c.Guard("read/"+rc.op.name, func() any { return rc.wit(ex) }, func() { repr, n, err = rc.op.run(src) }) {
+				return
+			}
+			switch {
+			case err != nil:
+				c.Violation("frag/"+rc.op.name+"/error-when-eof-comes-with-the-last-byte", fmt.Sprintf("the complete item, its last bytes delivered together with io.EOF (reads of %v), fails: %v", plan, err), rc.wit(ex))
+				return
+			case repr != bRepr:
+				c.Violation("frag/"+rc.op.name+"/value-depends-on-eof-with-the-last-byte", fmt.Sprintf("with io.EOF delivered together with the last bytes the value is %s, otherwise %s", short(repr), short(bRepr)), rc.wit(ex))
+				return
+			case n != bN:
+				c.Violation("frag/"+rc.op.name+"/count-depends-on-eof-with-the-last-byte", fmt.Sprintf("with io.EOF delivered together with the last bytes the reported count is %d, otherwise %d", n, bN), rc.wit(ex))
+				return
+			case src.Pos != bConsumed:
+				c.Violation("frag/"+rc.op.name+"/residual-depends-on-eof-with-the-last-byte", fmt.Sprintf("consumed %d bytes, contiguous %d", src.Pos, bConsumed), rc.wit(ex))
+				return
+			}
+		}
+		c.Cover("frag.eof-with-last-byte")
+		c.Cover("frag.eof-with-last-byte." + rc.op.name)
 	}
 	c.CoverN("frag.plans-run", int64(nplans))
 	c.Cover("frag." + rc.op.name)
@@ -844,6 +885,12 @@ func run(c *vm.Ctx) {
 			botConnWriteFailure(c, br)
 		}
 	}
+	if c.Shard == 4%c.NShards {
+		br := c.Rand("botconn-read")
+		for i := 0; i < c.Scale(160, 1600); i++ {
+			botConnReadFailure(c, br)
+		}
+	}
 	// from here on: millions of short runs that each allocate a little and keep nothing - collect less often
 	debug.SetGCPercent(400)
 	r := c.Rand("cases")
@@ -856,6 +903,13 @@ func run(c *vm.Ctx) {
 		rcs, wcs := genCases(c, r, g)
 		rcs2, wcs2 := moreCases(c, r, g, i)
 		rcs, wcs = append(rcs, rcs2...), append(wcs, wcs2...)
+		rcs = append(rcs, typedRootCases(r, g, 3)...)
+		rcs = append(rcs, unknownMemberCases(r, g)...)
+		if i%2 == 0 {
+			rcs = append(rcs, signCases(r)...)
+		}
+		rcs = append(rcs, usedByteArrayCase(r))
+		checkScan(c, r)
 		for _, rc := range rcs {
 			checkRead(c, r, rc)
 		}
